@@ -302,6 +302,12 @@ def _configs(tier):
     out.append(("PWake", "cat", cat_t, None, D["plain_categorical_fixed"], "discrete"))
     for gname, rname in (("flip_enum", "plain_flip_fixed"), ("flip_reinforce", "plain_flip_fixed"), ("plain_flip_fixed", "flip_enum")):
         out.append(("QWake", "flip", flip_t, D[gname], D[rname], "discrete"))
+    if tier == "thorough":
+        out.append(("PWake", "cat", cat_t, None, D["categorical_enum"], "discrete"))
+        out.append(("PWake", "flip", flip_t, None, D["flip_mvd"], "discrete"))
+        out.append(("QWake", "cat", cat_t, D["categorical_enum"], D["plain_categorical_fixed"], "discrete"))
+        out.append(("QWake", "flip", flip_t, D["flip_mvd"], D["plain_flip_fixed"], "discrete"))
+        out.append(("QWake", "flip", flip_t, D["flip_enum"], D["flip_reinforce"], "discrete"))
     nt = (model_normal, lp_normal)
     for gname in ("normal_reparam", "normal_reinforce", "plain_normal"):
         out.append(("ELBO", "normal", nt, N[gname], None, "continuous"))
